@@ -190,21 +190,77 @@ class Driver:
         if not DRIVER.exists():
             raise HarnessError(f"driver not built: {DRIVER}")
 
-    def run(self, lines, timeout=1800):
-        if not lines:
-            return []
-        data = "\n".join(lines) + "\n"
-        p = subprocess.run([str(DRIVER)], input=data, capture_output=True, text=True, timeout=timeout)
-        outs = p.stdout.split("\n")
-        if outs and outs[-1] == "":
-            outs.pop()
-        if p.returncode != 0 or len(outs) != len(lines):
-            # find the first line the driver died on, to make the diagnosis replayable
-            raise HarnessError(
-                f"driver exit={p.returncode} lines_in={len(lines)} lines_out={len(outs)} "
-                f"stderr={p.stderr[-500:]!r} next_input={lines[len(outs)] if len(outs) < len(lines) else None!r}"
-            )
+    MODEL_TIMEOUT = "(model-timeout)"
+
+    def run(self, lines, timeout=1800, line_timeout=40.0):
+        """one answer per input line.  A line the model does not answer within `line_timeout` seconds (the LR model
+        re-evaluates finished Forwards and is exponential on some shapes) is answered MODEL_TIMEOUT and the driver is
+        restarted on the rest; callers drop such cases from the comparison and count them."""
+        outs, i, restarts = [], 0, 0
+        t_end = time.time() + timeout
+        while i < len(lines):
+            got, why, err = self._stream(lines[i:], line_timeout, t_end)
+            outs += got
+            i += len(got)
+            if i >= len(lines):
+                break
+            if why == "line-timeout" and restarts < 200:
+                outs.append(self.MODEL_TIMEOUT)
+                i += 1
+                restarts += 1
+                continue
+            raise HarnessError(f"driver stopped ({why}) lines_in={len(lines)} lines_out={len(outs)} stderr={err[-500:]!r} "
+                               f"next_input={lines[i]!r}")
         return outs
+
+    def _stream(self, lines, line_timeout, t_end):
+        import select
+        import threading
+        p = subprocess.Popen([str(DRIVER)], stdin=subprocess.PIPE, stdout=subprocess.PIPE, stderr=subprocess.PIPE)
+        data = ("\n".join(lines) + "\n").encode()
+
+        def feed():
+            try:
+                p.stdin.write(data)
+                p.stdin.close()
+            except (BrokenPipeError, ValueError, OSError):
+                pass
+
+        th = threading.Thread(target=feed, daemon=True)
+        th.start()
+        fd = p.stdout.fileno()
+        buf, outs, why = b"", [], "eof"
+        while len(outs) < len(lines):
+            if time.time() > t_end:
+                why = "total-timeout"
+                break
+            r, _, _ = select.select([fd], [], [], line_timeout)
+            if not r:
+                why = "line-timeout"
+                break
+            chunk = os.read(fd, 1 << 16)
+            if not chunk:
+                why = "eof"
+                break
+            buf += chunk
+            *full, buf = buf.split(b"\n")
+            outs += [x.decode() for x in full]
+        if len(outs) < len(lines):
+            p.kill()
+        try:
+            p.stdout.close()
+        except Exception:  # noqa
+            pass
+        err = b""
+        try:
+            err = p.stderr.read() or b""
+            p.stderr.close()
+        except Exception:  # noqa
+            pass
+        p.wait()
+        if len(outs) >= len(lines):
+            why = "done"
+        return outs[: len(lines)], why, err.decode(errors="replace")
 
     def run_sharded(self, lines, shards=16, timeout=1800):
         if len(lines) < 2000:
@@ -375,6 +431,10 @@ class Ctx:
             else:
                 oc = (io.split(" ", 1)[0][:24] if isinstance(io, str) else "?").lstrip("(")
             st["outcomes"][oc] = st["outcomes"].get(oc, 0) + 1
+            if mo == Driver.MODEL_TIMEOUT:
+                # the model did not answer this line in time: no comparison was made (counted, never a diff)
+                st["model_timeouts"] = st.get("model_timeouts", 0) + 1
+                continue
             if mo != io:
                 diffs.append(i)
         st["diffs"] += len(diffs)
